@@ -5,15 +5,11 @@ func init() {
 	serve("C01", "T1", "T2", "T3", "T6", "T8", "B3b")
 	serve("C02", "B1", "B1n", "B2", "B3", "B3b", "B4")
 	serve("C03", "F1", "F2", "T6", "B4", "B3b", "G6r")
-	serve("CXX", "T4", "T5", "T6")
-	serve("CS", "S1", "S2", "S3", "S4", "S5", "S6", "V1", "V2")
-	serve("CP", "P1", "P2", "P3", "P5")
-	serve("CG", "G6", "G6r", "B3b")
 	serve("C05", "V2")
 	serve("C07", "B6", "B6m", "G5", "G6r", "B2", "B3")
 	serve("C08", "G4", "G8", "R4")
 	serve("C09", "L1", "L2", "P3", "P3c", "L6", "S4")
-	serve("C10", "P3", "P3w", "P4", "P5", "P6", "L1")
+	serve("C10", "P3", "P3w", "P4", "P5", "L1")
 	serve("C11", "R1", "R2", "R3", "R4", "P1", "P2")
 	serve("C12", "S2", "S3", "S4", "S6")
 	serve("C13", "S1", "S5")
@@ -24,9 +20,6 @@ func init() {
 	serve("C18", "L1", "L2", "L6", "P2", "R4", "G10")
 	serve("C19", "P3", "P6", "L1", "L6")
 	serve("C20", "G2", "R4", "L2", "L3")
-	serve("CR", "R1", "R2", "R4")
-	serve("CL", "L1", "L2", "L3", "L4")
-	serve("CB", "T8", "T3", "F1", "F2", "B1", "B2", "B3", "B4", "B1n", "T1", "T2", "T4", "T5", "T6")
 	serve("C06", "T1", "T2", "T3", "T4", "T5", "B2", "B3")
 }
 
